@@ -34,19 +34,24 @@ pub fn c43(args: &Args) -> ! {
             (2, 1, 0, vec![0, 1, 2, 3], true, 30),
             (2, 1, 1, vec![0, 1, 2, 3], true, 30),
             (2, 2, 0, vec![0, 1, 2, 3], false, 30),
-            (2, 2, 1, vec![0, 1, 2, 3], false, 30),
+            (2, 2, 1, vec![0, 1, 2, 3, 4], false, 30),
+            (2, 3, 0, vec![0, 1, 2, 3], false, 30),
             (3, 1, 0, vec![0, 1, 2, 3], false, 30),
             (3, 1, 1, vec![0, 1, 2], false, 30),
+            (3, 2, 0, vec![0, 1, 2], false, 30),
+            (4, 1, 0, vec![0, 1, 2], false, 30),
         ]
     } else {
         vec![
             (2, 1, 0, vec![0, 1, 2, 3], true, 60),
             (2, 1, 1, vec![0, 1, 2, 3], true, 60),
-            (2, 2, 0, vec![0, 1, 2, 3, 4], true, 840),
-            (2, 2, 1, vec![0, 1, 2, 3], false, 600),
-            (3, 1, 0, vec![0, 1, 2, 3, 4], false, 840),
-            (3, 1, 1, vec![0, 1, 2, 3], false, 600),
-            (3, 2, 0, vec![0, 1, 2], false, 600),
+            (2, 2, 0, vec![0, 1, 2, 3, 4], true, 700),
+            (2, 2, 1, vec![0, 1, 2, 3, 4, 5, 6], false, 700),
+            (2, 3, 0, vec![0, 1, 2, 3, 4, 5], false, 700),
+            (3, 1, 0, vec![0, 1, 2, 3, 4, 5, 6], false, 700),
+            (3, 1, 1, vec![0, 1, 2, 3, 4], false, 700),
+            (3, 2, 0, vec![0, 1, 2, 3], false, 700),
+            (4, 1, 0, vec![0, 1, 2, 3], false, 700),
         ]
     };
     for (t, r, s, bs, unb, cap) in plan {
@@ -62,6 +67,64 @@ pub fn c43(args: &Args) -> ! {
     rep.assume("futex(2) model: FUTEX_WAIT compares and enqueues atomically w.r.t. FUTEX_WAKE on the same word; FUTEX_WAKE wakes at most n currently enqueued waiters and is otherwise lost; spurious returns are modelled by one unsolicited FUTEX_WAKE issued at an arbitrary point");
     rep.assume("loom explores the C11 memory model with bounded atomic history; sched_yield is a scheduling hint (loom yield)");
     rep.assume("fairness: an execution in which a thread spins forever while another could run is cut by loom's yield handling, not reported");
+    rep.finish()
+}
+
+pub fn c41(args: &Args) -> ! {
+    let mut rep = Report::new(args, Level::ModelChecking);
+    let quick = args.tier == Tier::Quick;
+    let mut jobs = Vec::new();
+    let bname = |b: i64| if b == 0 { "shm" } else { "memory" };
+    // strict sequential family: one child per scenario, so that one finding cannot hide another
+    for backend in [0i64, 1] {
+        for i in 0..24 {
+            let shape = format!("{} state, sequential: removal, then two operations on the removed channel and one on the other; scenario {i}/24", bname(backend));
+            jobs.push(Job::new("afc", "c41", &[backend, 0, 0, i, 24], None, 30, &shape));
+        }
+    }
+    // (backend, family, max program length, bounds, unbounded, shards, cap)
+    let plan: Vec<(i64, i64, i64, Vec<usize>, bool, i64, u64)> = if quick {
+        vec![
+            (0, 1, 2, vec![0, 1, 2, 3], true, 1, 30),
+            (0, 2, 1, vec![0, 1, 2, 3], false, 2, 30),
+            (1, 1, 2, vec![0, 1, 2, 3], true, 1, 30),
+            (1, 2, 1, vec![0, 1, 2, 3], true, 2, 30),
+        ]
+    } else {
+        vec![
+            (0, 1, 3, vec![0, 1, 2, 3], true, 2, 700),
+            (0, 2, 1, vec![0, 1, 2, 3, 4, 5], false, 6, 700),
+            (1, 1, 3, vec![0, 1, 2, 3], true, 1, 700),
+            (1, 2, 1, vec![0, 1, 2, 3], true, 2, 700),
+        ]
+    };
+    for (backend, family, len, bs, unb, shards, cap) in plan {
+        for b in bounds(&bs, unb) {
+            for sh in 0..shards {
+                let shape = format!(
+                    "{} state: writer runs remove(x) | remove_all | remove_if(id==x) while {} with cached contexts for x and y; channel orders x,y and y,x; seal and open channels; shard {sh}/{shards}",
+                    bname(backend),
+                    if family == 1 { format!("one reader runs every program over {{op(x), op(y)}} of length <= {len}") } else { "two readers run one or two operations".to_string() }
+                );
+                jobs.push(Job::new("afc", "c41", &[backend, family, len, sh, shards], b, cap, &shape));
+            }
+        }
+    }
+    let results = run_jobs(&args.prop, &jobs, PARALLEL);
+    fold(&mut rep, &args.prop, results);
+    guards(
+        &mut rep,
+        &[
+            "removed_channel_op_not_found_judged",
+            "removed_channel_op_not_found_unjudged",
+            "removed_channel_op_ok_before_removal_visible",
+            "kept_channel_op_ok",
+            "futex_wait_blocked",
+        ],
+    );
+    rep.assume("'starts after the removal has returned' is observed through a SeqCst flag written by the writer after the call returns and read by the reader immediately before its operation");
+    rep.assume("the POSIX shm object is emulated in-process (one zero-initialised buffer aliased by all mappings; LOOMCHECK_REAL_SHM=1 runs on real objects with identical results, only slower); futex(2) model as for C43, keyed by the word's identity rather than its virtual address (shared futex)");
+    rep.assume("one writer, at most two readers, two channels; removal predicates are deterministic");
     rep.finish()
 }
 
